@@ -3,7 +3,7 @@ import itertools
 from vlib import Rng
 import sockgen as G
 
-RULE = ("status codes of 1..5 digits and empty / long reasons among the header sets; " "family sock: header sets of varying block length x body write sequences x acknowledgement compositions: all compositions of "
+RULE = ("family stream: chunks written from inside the bytesWritten notification over a real loopback connection; " "status codes of 1..5 digits and empty / long reasons among the header sets; " "family sock: header sets of varying block length x body write sequences x acknowledgement compositions: all compositions of "
         "small totals, and compositions aimed at H-1, H, H+1 (H = header block length), interleaved with later writes; "
         "non-trivial = distinct case")
 ASSUMPTIONS = ["acknowledgements never exceed the bytes written so far (what a transport can do)"]
@@ -120,3 +120,16 @@ def cases(tier, seed, ctx=None):
             out.append(G.Ack(k))
             rest -= k
         yield ("sock", [G.NOPOL, out, env, [18]], "random")
+
+    # streaming with back-pressure over a REAL loopback connection: the next chunk is written from inside the notification
+    # (or one turn later); judged by the statement alone
+    for j in range(24 if tier == "quick" else 300):
+        k = rng.range(1, 5)
+        chunks = [rng.bytes(rng.choice([1, 1, 7, 100, 4096, 70000] if j % 6 == 0 else [1, 2, 7, 30, 100])) for _ in range(k)]
+        if rng.chance(1, 8):
+            chunks.insert(rng.below(len(chunks)), b"")
+        if chunks[-1] == b"" or all(len(x) == 0 for x in chunks):
+            chunks.append(b"end")
+        if b"" in chunks[1:]:
+            chunks = [x for x in chunks if x] or [b"z"]      # an empty chunk in the middle reports nothing and would end the chain
+        yield ("stream", [chunks, rng.below(2), rng.below(2)], "stream-backpressure")
